@@ -747,6 +747,11 @@ func (stmt *Statement) SelectAndOmitColumns(requireCreate, requireUpdate bool) (
 		for _, field := range stmt.Schema.FieldsByName {
 			name := field.DBName
 			if name == "" {
+				// without a column only a relation is addressed by its field name; the name of an
+				// ignored field may be the column of another field
+				if _, ok := stmt.Schema.Relationships.Relations[field.Name]; !ok {
+					continue
+				}
 				name = field.Name
 			}
 
